@@ -47,7 +47,12 @@ def judge_outcomes(sysm, problems):
         if e.startswith("submit:") or e.startswith("iam:"):
             problems.append(("submitting-the-request-raised:%s" % e.split(":")[1], {"error": e}))
     if len(sysm.submitted) + sum(1 for e in sysm.errors if e.startswith("submit:")) != len(cfg.reqs):
-        problems.append(("harness:not-every-request-was-submitted", {"submitted": len(sysm.submitted)}))
+        if cfg.via == "iocb-chain":
+            # the application submits request k+1 from the completion callback of request k
+            problems.append(("chained-request-never-submitted-because-previous-has-no-outcome",
+                             {"submitted": len(sysm.submitted), "of": len(cfg.reqs)}))
+        else:
+            problems.append(("harness:not-every-request-was-submitted", {"submitted": len(sysm.submitted)}))
     for sn, req in sysm.submitted:
         inv = req.apduInvokeID
         mine = [c for c in confs if c[3] == inv]
@@ -65,7 +70,7 @@ def judge_outcomes(sysm, problems):
     others = [c for c in confs if c[3] not in [r.apduInvokeID for _, r in sysm.submitted]]
     if others:
         problems.append(("confirmation-for-no-request", {"confirmations": [(c[1], c[3]) for c in others]}))
-    if cfg.via == "iocb":
+    if cfg.via in ("iocb", "iocb-chain"):
         for k, iocb in enumerate(sysm.client.iocbs):
             if iocb.calls != 1:
                 problems.append(("iocb-callback-count:%d" % iocb.calls, {"iocb": k, "state": iocb.ioState}))
@@ -113,7 +118,7 @@ def judge_residue(sysm, problems):
                          {"tasks": [(w, type(t).__name__, getattr(t, "state", None)) for (w, n, t) in tasks]}))
     if _core.deferredFns:
         problems.append(("residue:deferred-functions", {"n": len(_core.deferredFns)}))
-    if sysm.cfg.via == "iocb":
+    if sysm.cfg.via in ("iocb", "iocb-chain"):
         q = sysm.client.queue_by_address
         if q:
             problems.append(("residue:client:iocb-queue", {"queues": [str(k) for k in q]}))
